@@ -51,52 +51,86 @@ def key_tail_check(ctx, p):
     b = ctx.body('table::ValueTable::for_parts')
     if not b:
         return
-    cmp_ = b.call_sites('table::key::TableKey::compare')
+    CMP = 'table::key::TableKey::compare'
+    cmp_ = b.call_sites(CMP)
     cb = b.call_sites('std::ops::FnMut::call_mut', 're:FnMut.*::call_mut$')
-    ctx.ob(p + 'a for_parts-anchors', 'anchor', b.path, 'for_parts has one key comparison and one callback invocation', len(cmp_) == 1 and len(cb) == 1, 'compare %s callback %s' % (cmp_, cb))
-    if len(cmp_) != 1 or len(cb) != 1:
+    # the comparison may sit in a helper of the table that for_parts asks for a verdict (`if !self.read_queried_key(..)? { return .. }`)
+    helper = None
+    if not cmp_:
+        for bi, t in b.calls():
+            for n in sorted(set(call_names(t))):
+                hb = F.bodies.get(n)
+                if bi in b.normal_blocks() and hb is not None and n.startswith('table::') and '{closure' not in n and len(hb.call_sites(CMP)) == 1 and re.search(r'^(std::result::Result<bool,|bool$)', str(hb.locals[0])):
+                    helper = (bi, hb)
+    ctx.ob(p + 'a for_parts-anchors', 'anchor', b.path, 'for_parts has one key comparison (its own or that of one verdict helper) and one callback invocation',
+           (len(cmp_) == 1 or (not cmp_ and helper is not None)) and len(cb) == 1, 'compare %s helper %s callback %s' % (cmp_, helper and helper[1].path, cb))
+    if not (len(cmp_) == 1 or helper) or len(cb) != 1:
         return
-    c, k = cmp_[0], cb[0]
-    # the branch on the comparison result
-    sw = None
-    for (s, yes, no) in b.control_deps(k):
-        t = b.term(s)
-        if t['k'] == 'switch' and op_place(t['a']) and any(bi == c for bi, _ in backward_slice(b, [op_place(t['a'])]).call_sites):
-            sw = (s, yes, no)
-            break
+    k = cb[0]
+
+    def eq_edges(body, c):
+        """(switch, target on equal, target on not equal) of the branch on the bool result of the call in block c"""
+        for sw, tr, fa in lib.bool_outcome_edges(body, [c]):
+            return sw, tr[1], fa[1]
+        return None
+
+    def arm_of(body):
+        for bi in body.normal_blocks():
+            t = body.term(bi)
+            if t['k'] == 'switch':
+                d = lib.switch_def(body, bi)
+                if d and d[2] == 'assign' and d[3]['r']['k'] == 'discr' and 'TableKeyQuery' in str(body.locals[d[3]['r']['p'][0]]):
+                    for v, tg in zip(t['vals'], t['ts']):
+                        if v == 0:
+                            return tg
+        return None
     ok = False
     det = 'the callback does not depend on the outcome of TableKey::compare'
-    if sw:
-        s, yes, no = sw
-        t = b.term(s)
-        # polarity: which edge is "equal"? follow Not-chain
-        l = op_local(t['a']); flip = False
-        for _ in range(4):
-            ds = [d for d in b.defs().get(l, [])]
-            if len(ds) == 1 and ds[0][2] == 'assign' and ds[0][3]['r']['k'] == 'un' and ds[0][3]['r']['op'] == 'Not':
-                flip = not flip; l = op_local(ds[0][3]['r']['a'][0])
-            else:
-                break
-        if t['vals'] == [0] and len(t['ts']) == 2:
-            zero_t, nz_t = t['ts']
-            eq_t, ne_t = (zero_t, nz_t) if flip else (nz_t, zero_t)
-            ok = eq_t in yes and ne_t in no
+    if helper:
+        c, hb = helper
+        hc = hb.call_sites(CMP)[0]
+        # the helper says "true" only on the equal edge of its comparison
+        def says_true(bi):
+            for st in hb.blocks[bi]['s']:
+                if st['k'] == 'assign' and st['p'] == [0]:
+                    r = st['r']
+                    if r['k'] == 'agg' and r['ak'] == core.RES_ERR:
+                        return False
+                    v = r['a'][0].get('i') if r.get('a') and isinstance(r['a'][0], dict) else None
+                    return v != 0
+            return False
+        trues = set(bi for bi in hb.normal_blocks() if says_true(bi))
+        he = eq_edges(hb, hc)
+        h_ok = bool(he) and bool(trues) and hb.find_path([he[2]], trues) is None
+        fe = eq_edges(b, c)
+        if fe and h_ok:
+            sw, eq_t, ne_t = fe
+            yes_no = [(yes, no) for (s_, yes, no) in b.control_deps(k) if s_ == sw]
+            ok = bool(yes_no) and eq_t in yes_no[0][0] and ne_t in yes_no[0][1]
             det = '' if ok else 'the callback (value bytes handed out) is reachable on the key-mismatch edge'
-    ctx.ob(p + 'b value-only-after-key-match', 'K3-guard', b.path,
-           'value bytes are handed to the caller only on the equal outcome of the stored-key-tail comparison (mismatch -> (0,false))', ok, det, b.loc(k))
-    # on the Check arm the comparison cannot be bypassed
-    arm = None
-    for bi in b.normal_blocks():
-        t = b.term(bi)
-        if t['k'] == 'switch':
-            d = lib.switch_def(b, bi)
-            if d and d[2] == 'assign' and d[3]['r']['k'] == 'discr' and d[3]['r']['p'] == [2, '*']:
-                for v, tg in zip(t['vals'], t['ts']):
-                    if v == 0:
-                        arm = tg
-    w = b.find_path([arm], {k}, removed={c}) if arm is not None else ['?']
-    ctx.ob(p + 'c check-arm-always-compares', 'K1-must-pass', b.path, 'with TableKeyQuery::Check every path to the callback passes TableKey::compare',
-           arm is not None and w is None, 'no Check arm found' if arm is None else 'path: ' + lib.short_path(b, w))
+        elif fe:
+            det = 'the helper %s can report a match on the not-equal edge of its comparison' % hb.path
+        ctx.ob(p + 'b value-only-after-key-match', 'K3-guard', b.path,
+               'value bytes are handed to the caller only on the equal outcome of the stored-key-tail comparison (mismatch -> (0,false))', ok, det, b.loc(k))
+        arm = arm_of(hb)
+        w = hb.find_path([arm], trues, removed={hc}) if arm is not None else ['?']
+        ctx.ob(p + 'c check-arm-always-compares', 'K1-must-pass', hb.path, 'with TableKeyQuery::Check every path to the callback passes TableKey::compare',
+               arm is not None and w is None, 'no Check arm found' if arm is None else 'path: ' + lib.short_path(hb, w))
+    else:
+        c = cmp_[0]
+        fe = eq_edges(b, c)
+        if fe:
+            sw, eq_t, ne_t = fe
+            yes_no = [(yes, no) for (s_, yes, no) in b.control_deps(k) if s_ == sw]
+            ok = bool(yes_no) and eq_t in yes_no[0][0] and ne_t in yes_no[0][1]
+            det = '' if ok else 'the callback (value bytes handed out) is reachable on the key-mismatch edge'
+        ctx.ob(p + 'b value-only-after-key-match', 'K3-guard', b.path,
+               'value bytes are handed to the caller only on the equal outcome of the stored-key-tail comparison (mismatch -> (0,false))', ok, det, b.loc(k))
+        # on the Check arm the comparison cannot be bypassed
+        arm = arm_of(b)
+        w = b.find_path([arm], {k}, removed={c}) if arm is not None else ['?']
+        ctx.ob(p + 'c check-arm-always-compares', 'K1-must-pass', b.path, 'with TableKeyQuery::Check every path to the callback passes TableKey::compare',
+               arm is not None and w is None, 'no Check arm found' if arm is None else 'path: ' + lib.short_path(b, w))
     # by-key fetches use Check(Partial(key))
     for fn in ('column::HashColumn::get_in_index',):
         g = ctx.body(fn)
